@@ -165,6 +165,9 @@ class Gen:
                 elif t['items']:
                     t['items'].pop()
                 return t
+        if isinstance(t, str) and t and r.random() < 0.5:
+            # near misses of strings: a conforming string with something in front of or behind it (full match, not prefix / search)
+            return r.choice([t + 'x', t + ' ', 'x' + t, t + t[-1] + '!', t[:-1]])
         return r.choice([x for x in [0, 1, -7, 'a', 'zzz', None, True, 12345] if x != t or type(x) is not type(t)])
 
 
